@@ -143,6 +143,15 @@ func runC06(c *sim.Ctx) *sim.Violation {
 		if c.Thorough {
 			first = byte(c.Run - 42)
 		}
+		// two sizes: an exact multiple of 2^24 (bits 24..27 of the length are the only
+		// ones set) and one just above 2^24
+		exact := first
+		if !c.Thorough {
+			exact = first&0xf0 | ref.ReservedFlags(first>>4) // the flag nibble MQTT prescribes for the type
+		}
+		if v := c06Giant(c, (1+t.Int(3))<<24, exact); v != nil {
+			return v
+		}
 		return c06Giant(c, 1<<24+1+t.Int(4096), first)
 	}
 	if c.Run == 40 || c.Run == 41 || (c.Thorough && c.Run > 41 && c.Run < 64000 && c.Run%2000 == 40) {
